@@ -443,6 +443,39 @@ func (pc *PeerConnection) VerifC30ConnectMedia() (*VerifC30Media, error) {
 	pc.dtlsTransport.srtpSession.Store(local)
 	pc.dtlsTransport.srtcpSession.Store(localC)
 	pc.undeclaredMediaProcessor()
+	// the peer swallows whatever the PeerConnection sends (receiver reports, NACKs)
+	go func() {
+		for {
+			st, _, aerr := remote.AcceptStream()
+			if aerr != nil {
+				return
+			}
+			go func() {
+				buf := make([]byte, 1500)
+				for {
+					if _, rerr := st.Read(buf); rerr != nil {
+						return
+					}
+				}
+			}()
+		}
+	}()
+	go func() {
+		for {
+			st, _, aerr := remoteC.AcceptStream()
+			if aerr != nil {
+				return
+			}
+			go func() {
+				buf := make([]byte, 1500)
+				for {
+					if _, rerr := st.Read(buf); rerr != nil {
+						return
+					}
+				}
+			}()
+		}
+	}()
 
 	return &VerifC30Media{rtp: remote, rtcp: remoteC, conns: []net.Conn{a, b, c, d}}, nil
 }
@@ -472,9 +505,9 @@ func (m *VerifC30Media) SendRTCP(raw []byte) error {
 
 // Close closes the sending side.
 func (m *VerifC30Media) Close() {
-	_ = m.rtp.Close()
-	_ = m.rtcp.Close()
 	for _, c := range m.conns {
 		_ = c.Close()
 	}
+	_ = m.rtp.Close()
+	_ = m.rtcp.Close()
 }
